@@ -271,6 +271,152 @@ def seq_late_frame_during_cleanup(rep, rng, params=None):
     rep.count('seq_kind', 'late-frame-during-cleanup')
 
 
+class MicroDict(dict):
+    """records every assignment / deletion the *caller* performs and lets the reader run after it"""
+    on_op = None
+
+    def __setitem__(self, key, value):
+        dict.__setitem__(self, key, value)
+        if self.on_op:
+            self.on_op('r')
+
+    def __delitem__(self, key):
+        dict.__delitem__(self, key)
+        if self.on_op:
+            self.on_op('d')
+
+
+NAME_SETS = [['Basic.GetOk', 'Basic.GetEmpty'], ['ContentHeader'], ['ContentBody'], ['Queue.DeclareOk'],
+             ['Basic.Ack', 'Basic.Nack'], ['Basic.GetOk', 'Basic.GetOk']]
+
+
+def micro_case(rep, rng, lines, expect):
+    """the real Rpc tables one dict operation at a time, the reader's on_frame interleaved after any of them; the
+    same event list is run by the Lean model `RpcMicro` (request size / response size / KeyErrors / frames consumed
+    after every event)"""
+    from amqpstorm.rpc import Rpc
+    rpc = Rpc(types_adapter())
+    req, resp = MicroDict(), MicroDict()
+    rpc._request, rpc._response = req, resp
+    evs, trace = [], []
+    st = {'ke': 0, 'consumed': 0, 'reader': False}
+    p_frame = rng.choice([0.2, 0.5, 0.8])
+
+    def snap():
+        trace.append('%d/%d/%d/%d' % (len(req), len(resp), st['ke'], st['consumed']))
+
+    def frame(name=None):
+        names = [n for ns in NAME_SETS for n in ns]
+        name = name or rng.choice(names)
+        fr = {'Basic.GetOk': spec.Basic.GetOk, 'Basic.GetEmpty': spec.Basic.GetEmpty, 'Queue.DeclareOk': spec.Queue.DeclareOk,
+              'Basic.Ack': spec.Basic.Ack, 'Basic.Nack': spec.Basic.Nack}.get(name)
+        fr = fr() if fr else (pheader.ContentHeader(body_size=1) if name == 'ContentHeader' else pbody.ContentBody(b'x'))
+        st['reader'] = True
+        try:
+            if rpc.on_frame(fr):
+                st['consumed'] += 1
+        except KeyError:
+            st['ke'] += 1
+        finally:
+            st['reader'] = False
+        evs.append('f:%s' % name)
+        snap()
+
+    def on_op(kind):
+        if st['reader']:
+            return
+        evs.append(kind)
+        snap()
+        while rng.random() < p_frame:
+            frame(rng.choice(st['names']) if rng.random() < 0.7 else None)
+    req.on_op = resp.on_op = on_op
+    for _ in range(rng.randint(1, 3)):
+        names = rng.choice(NAME_SETS)
+        st['names'] = names
+        evs.append('b:%s' % '+'.join(names))
+        snap()
+        if rng.random() < 0.3:
+            frame(rng.choice(names))
+        uid = rpc.register_request(list(names))
+        for _ in range(rng.randint(0, 3)):
+            if rng.random() < 0.6:
+                frame(rng.choice(names))
+            else:
+                rpc._get_response_frame(uid)
+                evs.append('p')
+                snap()
+        evs.append('x')
+        snap()
+        rpc.remove(uid)
+        if rng.random() < 0.5:
+            frame(rng.choice(names))
+    replay = {'kind': 'micro', 'events': ','.join(evs)}
+    if st['ke']:
+        rep.violation('C15/reader-fails-on-late-frame', 'Rpc.on_frame raised KeyError %d time(s) when frames arrived between the single '
+                      'steps of register_request / remove: %s' % (st['ke'], ','.join(evs)[:200]), replay)
+    if len(req) or len(resp):
+        rep.violation('C15/residue', 'tables not empty after the calls: %d/%d' % (len(req), len(resp)), replay)
+    rep.case(('micro', ','.join(evs)), any(e.startswith('f:') for e in evs), sample=replay)
+    rep.count('seq_kind', 'micro')
+    lines.append('c15.micro %s' % ','.join(evs))
+    expect.append(';'.join(trace))
+
+
+def micro_replay(events):
+    """re-run a recorded event list on the real Rpc: -> number of KeyErrors raised by on_frame, residue"""
+    from amqpstorm.rpc import Rpc
+    rpc = Rpc(types_adapter())
+    req, resp = MicroDict(), MicroDict()
+    rpc._request, rpc._response = req, resp
+    evs = events.split(',')
+    st = {'i': 0, 'ke': 0, 'reader': False}
+
+    def make(name):
+        fr = {'Basic.GetOk': spec.Basic.GetOk, 'Basic.GetEmpty': spec.Basic.GetEmpty, 'Queue.DeclareOk': spec.Queue.DeclareOk,
+              'Basic.Ack': spec.Basic.Ack, 'Basic.Nack': spec.Basic.Nack}.get(name)
+        return fr() if fr else (pheader.ContentHeader(body_size=1) if name == 'ContentHeader' else pbody.ContentBody(b'x'))
+
+    def frames():
+        while st['i'] < len(evs) and evs[st['i']].startswith('f:'):
+            name = evs[st['i']][2:]
+            st['i'] += 1
+            st['reader'] = True
+            try:
+                rpc.on_frame(make(name))
+            except KeyError:
+                st['ke'] += 1
+            finally:
+                st['reader'] = False
+
+    def on_op(kind):
+        if st['reader']:
+            return
+        if st['i'] < len(evs) and evs[st['i']] in ('r', 'd'):
+            st['i'] += 1
+        frames()
+    req.on_op = resp.on_op = on_op
+    uid = None
+    while st['i'] < len(evs):
+        e = evs[st['i']]
+        st['i'] += 1
+        if e.startswith('b:'):
+            frames()
+            uid = rpc.register_request(e[2:].split('+'))
+        elif e == 'p':
+            rpc._get_response_frame(uid)
+        elif e == 'x':
+            rpc.remove(uid)
+        elif e.startswith('f:'):
+            st['i'] -= 1
+            frames()
+    return st['ke'], len(req), len(resp)
+
+
+def types_adapter():
+    import types
+    return types.SimpleNamespace(check_for_errors=lambda: None, is_open=True, exceptions=[])
+
+
 def seq_pending_error(rep, rng):
     """basic.get on a channel that has an error parked on it (a returned message, or several): the call fails
     before anything is sent - and must leave no reply bookkeeping behind"""
@@ -506,6 +652,9 @@ def check(rep):
             seq_guard_history(rep, rng)
         if rng.random() < 0.04:
             seq_late_frame_during_cleanup(rep, rng)
+    mlines, mexpect = [], []
+    for _ in range(300 if not thorough else 5000):
+        micro_case(rep, rng, mlines, mexpect)
     jobs = []
     for _ in range(60 if not thorough else 1200):
         then = rng.choice([None, None, 'silence', 'close', 'die'])
@@ -537,6 +686,12 @@ def check(rep):
             want_prefix = '%s req=%d resp=%d wrote=%s' % (res, req, resp, 'true' if wrote else 'false')
             if not g.startswith(want_prefix):
                 rep.mismatch({'line': l[:300]}, g[:200], want_prefix[:200])
+        got = common.run_driver(mlines)
+        rep.corr_cases += len(mlines)
+        for l, g, e in zip(mlines, got, mexpect):
+            gm = ';'.join(x.rsplit('/', 1)[0] for x in g.split(';'))      # the model also prints its phase
+            if gm != e:
+                rep.mismatch({'line': l[:300]}, gm[:300], e[:300])
     else:
         rep.infra_errors.append('lean driver not buildable')
 
@@ -548,10 +703,14 @@ def replay(data):
         out = cosim_one((r['scenario'], r['seed']))
         print(out)
         bad = bool(out['problems'])
+    elif r['kind'] == 'micro':
+        ke, nreq, nresp = micro_replay(r['events'])
+        print('events %s: on_frame raised KeyError %d time(s); %d request / %d response entries left' % (r['events'][:200], ke, nreq, nresp))
+        bad = bool(ke or nreq or nresp)
     elif r['kind'] == 'seq-late-frame-during-cleanup':
         seq_late_frame_during_cleanup(rep, random.Random(0), params=r)
         for v in rep.violations:
-            print(v)
+            print('%s: %s' % (v.signature, v.what))
         bad = bool(rep.violations)
     else:
         print('sequential case: re-run the check with the same VERIF_SEED to reproduce: %r' % (r,))
